@@ -1,5 +1,834 @@
-//! C05 — not implemented yet.
+//! C05 — multi-scalar multiplication equals Σ kᵢ·Pᵢ for every shape and history.
+//!
+//! Every group under test is cyclic of prime order r with a designated generator `Gen`, and every base the
+//! generators produce is a *known* multiple aᵢ·Gen. The reference value of an MSM is therefore
+//! `(Σ kᵢ·aᵢ mod r)·Gen`: a BigUint dot product followed by the trusted map e ↦ e·Gen
+//!   * `Zr` (additive group of a prime field, see zr.rs): e·1 = e, built from its integer value;
+//!   * toy curves: the table 0·G … (r−1)·G built with the textbook affine law of `vh_core::curve`
+//!     (the table is checked to have exactly r distinct entries and to close up: (r−1)·G + G = O);
+//!   * shipped curves: naive MSB-first double-and-add written here (r·G = O is checked at start-up).
+mod zr;
+
+use ark_ec::models::short_weierstrass::{self as sw, SWCurveConfig};
+use ark_ec::models::twisted_edwards::{self as te, TECurveConfig};
+use ark_ec::scalar_mul::variable_base::{ChunkedPippenger, HashMapPippenger};
+use ark_ec::{PrimeGroup, VariableBaseMSM};
+use ark_ff::{AdditiveGroup, PrimeField};
+use num_bigint::BigUint;
+use num_traits::{One, Zero};
+use std::sync::Arc;
+use vh_core::curve::*;
+use vh_core::engine::{no_panic, Obs, PropSpec, Rel, Tape, Tier, R};
+use vh_core::gen::{big_below, edge_value};
+use vh_core::modint::{pow2, FieldCtx};
+use vh_core::{ensure, toy, zoo};
+use zr::{Cfg, Zr};
+
+type Sc<G> = <G as PrimeGroup>::ScalarField;
+type Bi<G> = <Sc<G> as PrimeField>::BigInt;
+type Mb<G> = <G as ark_ec::ScalarMul>::MulBase;
+
+// ------------------------------------------------------------------------------------------------
+// group descriptions
+// ------------------------------------------------------------------------------------------------
+
+enum Bases<G: VariableBaseMSM> {
+    /// every a in [0, r) is available: base(a)
+    Any(Box<dyn Fn(&BigUint) -> Mb<G> + Send + Sync>),
+    /// bases come from a fixed pool (a, a·Gen) closed under negation; `neg[i]` = index of −pool[i].
+    /// pool[0] is the identity, pool[1] the generator
+    Pool { pts: Vec<(BigUint, Mb<G>)>, neg: Vec<usize> },
+}
+
+struct Ctx<G: VariableBaseMSM> {
+    name: String,
+    r: BigUint,
+    nbits: usize,
+    /// scalar-field context for the edge generator
+    fctx: FieldCtx,
+    bases: Bases<G>,
+    /// e -> e·Gen by reference means
+    mk_elem: Box<dyn Fn(&BigUint) -> G + Send + Sync>,
+    /// `SWCurveConfig::msm` / `TECurveConfig::msm`
+    cfg_msm: Option<fn(&[Mb<G>], &[Sc<G>]) -> Result<G, usize>>,
+    /// signed-digit implementation in use (classification only)
+    neg: bool,
+}
+
+fn big_to_bi<F: PrimeField>(v: &BigUint) -> F::BigInt {
+    F::BigInt::try_from(v.clone()).ok().expect("value fits the BigInt")
+}
+fn big_to_f<F: PrimeField>(v: &BigUint) -> F {
+    F::from_bigint(big_to_bi::<F>(v)).expect("value below the modulus")
+}
+fn modulus_of<F: PrimeField>() -> BigUint {
+    F::MODULUS.into()
+}
+
+fn base_ctx<G: VariableBaseMSM>(name: &str, neg: bool, bases: Bases<G>, mk_elem: Box<dyn Fn(&BigUint) -> G + Send + Sync>) -> Ctx<G> {
+    let r = modulus_of::<Sc<G>>();
+    Ctx {
+        name: name.to_string(),
+        nbits: <Sc<G> as PrimeField>::MODULUS_BIT_SIZE as usize,
+        fctx: FieldCtx::new(name, <Sc<G> as PrimeField>::MODULUS.as_ref()),
+        r,
+        bases,
+        mk_elem,
+        cfg_msm: None,
+        neg,
+    }
+}
+
+fn zr_ctx<F: PrimeField, const NEG: bool>(fname: &str) -> Ctx<Zr<Cfg<F, NEG>>> {
+    let name = format!("Zr.{}.{}", fname, if NEG { "signed" } else { "plain" });
+    base_ctx(
+        &name,
+        NEG,
+        Bases::Any(Box::new(|a| Zr(big_to_f::<F>(a)))),
+        Box::new(|e| Zr(big_to_f::<F>(e))),
+    )
+}
+
+fn pool_from_table<G: VariableBaseMSM>(tab: &[Mb<G>]) -> Bases<G> {
+    let r = tab.len();
+    Bases::Pool {
+        pts: tab.iter().enumerate().map(|(i, b)| (BigUint::from(i as u64), *b)).collect(),
+        neg: (0..r).map(|i| (r - i) % r).collect(),
+    }
+}
+
+fn toy_sw_ctx<P: SWCurveConfig>(name: &str) -> Ctx<sw::Projective<P>> {
+    let r: u64 = modulus_of::<P::ScalarField>().to_u64_digits()[0];
+    let a = P::COEFF_A;
+    let g = sw_from_affine(&P::GENERATOR);
+    assert!(sw_on_curve(&a, &P::COEFF_B, &g));
+    let mut tab = vec![Sw::Inf];
+    for _ in 1..r {
+        let n = sw_add(&a, tab.last().unwrap(), &g);
+        tab.push(n);
+    }
+    assert_eq!(sw_add(&a, tab.last().unwrap(), &g), Sw::Inf, "{}: r*G != O", name);
+    assert!(tab.iter().skip(1).all(|p| *p != Sw::Inf), "{}: order of G is not r", name);
+    let aff: Vec<sw::Affine<P>> = tab.iter().map(|p| sw_to_affine::<P>(p)).collect();
+    let aff2 = aff.clone();
+    let mut c = base_ctx::<sw::Projective<P>>(
+        &format!("toy.{}", name),
+        true,
+        pool_from_table::<sw::Projective<P>>(&aff),
+        Box::new(move |e| aff2[e.to_u64_digits().first().copied().unwrap_or(0) as usize].into()),
+    );
+    c.cfg_msm = Some(<P as SWCurveConfig>::msm);
+    c
+}
+
+fn toy_te_ctx<P: TECurveConfig>(name: &str) -> Ctx<te::Projective<P>> {
+    let r: u64 = modulus_of::<P::ScalarField>().to_u64_digits()[0];
+    let (a, d) = (P::COEFF_A, P::COEFF_D);
+    let g = te_from_affine(&P::GENERATOR);
+    assert!(te_on_curve(&a, &d, &g));
+    let tab = te_subgroup(&a, &d, &g, r);
+    assert_eq!(te_add(&a, &d, tab.last().unwrap(), &g), Some(te_identity()), "{}: r*G != O", name);
+    assert!(tab.iter().skip(1).all(|p| *p != te_identity()), "{}: order of G is not r", name);
+    let aff: Vec<te::Affine<P>> = tab.iter().map(|p| te_to_affine::<P>(p)).collect();
+    let aff2 = aff.clone();
+    let mut c = base_ctx::<te::Projective<P>>(
+        &format!("toy.{}", name),
+        true,
+        pool_from_table::<te::Projective<P>>(&aff),
+        Box::new(move |e| aff2[e.to_u64_digits().first().copied().unwrap_or(0) as usize].into()),
+    );
+    c.cfg_msm = Some(<P as TECurveConfig>::msm);
+    c
+}
+
+/// naive MSB-first double-and-add (reference multiplication for shipped curves)
+fn ref_mul<G: AdditiveGroup>(g: &G, k: &BigUint) -> G {
+    let mut r = G::zero();
+    for i in (0..k.bits()).rev() {
+        r.double_in_place();
+        if k.bit(i) {
+            r += g;
+        }
+    }
+    r
+}
+
+fn splitmix(x: u64) -> u64 {
+    let mut z = x.wrapping_add(0x9e3779b97f4a7c15);
+    z = (z ^ (z >> 30)).wrapping_mul(0xbf58476d1ce4e5b9);
+    z = (z ^ (z >> 27)).wrapping_mul(0x94d049bb133111eb);
+    z ^ (z >> 31)
+}
+
+/// shipped curve: pool of 1 + 2*`pairs` multiples of the generator (identity, then (a, r-a) pairs)
+fn shipped_ctx<G: VariableBaseMSM>(name: &str, pairs: usize, cfg_msm: fn(&[Mb<G>], &[Sc<G>]) -> Result<G, usize>) -> Ctx<G> {
+    let r = modulus_of::<Sc<G>>();
+    let gen = G::generator();
+    assert!(ref_mul(&gen, &r).is_zero(), "{}: r*G != O", name);
+    assert!(!gen.is_zero());
+    // pool[0] = identity, then pairs (a, r-a): pool[1] = G, pool[2] = -G, 2, 3, (r-1)/2 and fixed pseudo-random constants
+    let mut exps: Vec<BigUint> = vec![BigUint::zero()];
+    let mut neg = vec![0usize];
+    let mut k = 0u64;
+    for j in 0..pairs {
+        let a = match j {
+            0 => BigUint::one(),
+            1 => BigUint::from(2u32),
+            2 => BigUint::from(3u32),
+            3 => (&r - 1u32) >> 1,
+            _ => {
+                let limbs = (r.bits() as usize + 63) / 64 + 1;
+                let mut d = Vec::new();
+                for _ in 0..2 * limbs {
+                    k += 1;
+                    d.push(splitmix(k.wrapping_mul(0x2545f4914f6cdd1d)) as u32);
+                }
+                BigUint::new(d) % &r
+            },
+        };
+        let i = exps.len();
+        let na = (&r - &a) % &r;
+        exps.push(a);
+        neg.push(i + 1);
+        exps.push(na);
+        neg.push(i);
+    }
+    let pts: Vec<(BigUint, Mb<G>)> = exps.iter().map(|a| (a.clone(), <Mb<G> as From<G>>::from(ref_mul(&gen, a)))).collect();
+    for (i, (a, _)) in pts.iter().enumerate() {
+        assert!(((a + &pts[neg[i]].0) % &r).is_zero(), "pool negation table");
+    }
+    let mut c = base_ctx::<G>(name, true, Bases::Pool { pts, neg }, Box::new(move |e| ref_mul(&gen, e)));
+    c.cfg_msm = Some(cfg_msm);
+    c
+}
+
+// ------------------------------------------------------------------------------------------------
+// generators
+// ------------------------------------------------------------------------------------------------
+
+/// window size the library derives from the usable length (replicated for *classification only*)
+fn window(n: usize) -> usize {
+    fn ceil_log2(n: usize) -> usize {
+        if n <= 1 {
+            0
+        } else {
+            (usize::BITS - (n - 1).leading_zeros()) as usize
+        }
+    }
+    if n < 32 {
+        3
+    } else {
+        ceil_log2(n) * 69 / 100 + 2
+    }
+}
+
+const CNAMES: [&str; 20] = [
+    "c=0", "c=1", "c=2", "c=3", "c=4", "c=5", "c=6", "c=7", "c=8", "c=9", "c=10", "c=11", "c=12", "c=13", "c=14", "c=15", "c=16", "c=17", "c=18",
+    "c=19",
+];
+
+/// does the signed-digit recoding of k (window w over nbits) carry into its last digit? (classification only)
+fn carries_into_last(k: &BigUint, w: usize, nbits: usize) -> bool {
+    let digits = nbits.div_ceil(w);
+    let mut carry = 0u64;
+    for i in 0..digits {
+        let mut v = 0u64;
+        for b in 0..w {
+            if k.bit((i * w + b) as u64) {
+                v |= 1 << b;
+            }
+        }
+        if i == digits - 1 {
+            return carry == 1;
+        }
+        let coef = v + carry;
+        carry = if coef >= (1 << (w - 1)) { 1 } else { 0 };
+    }
+    false
+}
+
+fn edge_scalar<G: VariableBaseMSM>(cx: &Ctx<G>, t: &mut Tape<'_>) -> BigUint {
+    match t.weighted(&[10, 4, 2]) {
+        0 => edge_value(t, &cx.fctx).0,
+        1 => {
+            // r - 1 - x with x below 2^j: saturates the top windows at every scale
+            let j = t.below(cx.nbits as u64 + 1) as usize;
+            let x = big_below(t, &pow2(j)) % &cx.r;
+            (&cx.r - 1u32 - x) % &cx.r
+        },
+        _ => BigUint::from(t.below(9)) % &cx.r,
+    }
+}
+
+struct Elems<G: VariableBaseMSM> {
+    a: Vec<BigUint>,
+    b: Vec<Mb<G>>,
+    idx: Vec<usize>,
+    k: Vec<BigUint>,
+}
+
+impl<G: VariableBaseMSM> Elems<G> {
+    fn new() -> Self {
+        Elems { a: vec![], b: vec![], idx: vec![], k: vec![] }
+    }
+    fn len(&self) -> usize {
+        self.a.len()
+    }
+}
+
+fn fresh_base<G: VariableBaseMSM>(cx: &Ctx<G>, t: &mut Tape<'_>) -> (BigUint, Mb<G>, usize) {
+    match &cx.bases {
+        Bases::Any(f) => {
+            let a = edge_value(t, &cx.fctx).0;
+            let b = f(&a);
+            (a, b, 0)
+        },
+        Bases::Pool { pts, .. } => {
+            // word 0 -> generator; identity and generator over-weighted
+            let i = match t.weighted(&[2, 1, 8]) {
+                0 => 1,
+                1 => 0,
+                _ => t.idx(pts.len()),
+            };
+            (pts[i].0.clone(), pts[i].1, i)
+        },
+    }
+}
+
+fn negated<G: VariableBaseMSM>(cx: &Ctx<G>, a: &BigUint, idx: usize) -> (BigUint, Mb<G>, usize) {
+    match &cx.bases {
+        Bases::Any(f) => {
+            let na = (&cx.r - a) % &cx.r;
+            let b = f(&na);
+            (na, b, 0)
+        },
+        Bases::Pool { pts, neg } => {
+            let j = neg[idx];
+            (pts[j].0.clone(), pts[j].1, j)
+        },
+    }
+}
+
+/// mode: 0 mixed, 1 all scalars near r, 2 one base repeated, 3 scalars in {0, 1, 2}
+fn push_elem<G: VariableBaseMSM>(cx: &Ctx<G>, t: &mut Tape<'_>, e: &mut Elems<G>, mode: usize, same_base: bool) {
+    let n = e.len();
+    let (a, b, i) = if n > 0 && (same_base || mode == 2) {
+        (e.a[n - 1].clone(), e.b[n - 1], e.idx[n - 1])
+    } else {
+        match if n == 0 { 0 } else { t.weighted(&[7, 2, 1, 1]) } {
+            0 => fresh_base(cx, t),
+            1 => {
+                let j = t.idx(n);
+                let j = n - 1 - j; // word 0 -> the previous element
+                (e.a[j].clone(), e.b[j], e.idx[j])
+            },
+            2 => negated(cx, &e.a[n - 1].clone(), e.idx[n - 1]),
+            _ => {
+                let z = BigUint::zero();
+                match &cx.bases {
+                    Bases::Any(f) => (z.clone(), f(&z), 0),
+                    Bases::Pool { pts, .. } => (z, pts[0].1, 0),
+                }
+            },
+        }
+    };
+    let k = match mode {
+        1 => {
+            let x = BigUint::from(t.below(1 << 20)) % &cx.r;
+            (&cx.r - 1u32 - x) % &cx.r
+        },
+        3 => BigUint::from(t.below(3)) % &cx.r,
+        _ => match if n == 0 { 0 } else { t.weighted(&[8, 1, 1]) } {
+            0 => edge_scalar(cx, t),
+            1 => e.k[n - 1].clone(),
+            _ => (&cx.r - &e.k[n - 1]) % &cx.r,
+        },
+    };
+    e.a.push(a);
+    e.b.push(b);
+    e.idx.push(i);
+    e.k.push(k);
+}
+
+/// words reserved per element on a tape
+fn words_per_elem(limbs: usize) -> usize {
+    4 * limbs + 16
+}
+
+/// m elements; up to `DIRECT` straight from the tape, more through block-wise expansion of one tape word
+const DIRECT: usize = 24;
+fn gen_elems<G: VariableBaseMSM>(cx: &Ctx<G>, t: &mut Tape<'_>, m: usize, mode: usize) -> Elems<G> {
+    let mut e = Elems::new();
+    if m <= DIRECT {
+        for _ in 0..m {
+            push_elem(cx, t, &mut e, mode, false);
+        }
+        return e;
+    }
+    let seed = t.u64();
+    let w = words_per_elem(cx.fctx.n);
+    const BLK: usize = 512;
+    let mut ctr = splitmix(seed);
+    let mut done = 0;
+    while done < m {
+        let cnt = BLK.min(m - done);
+        let words: Vec<u64> = (0..cnt * w)
+            .map(|_| {
+                ctr = ctr.wrapping_add(0x9e3779b97f4a7c15);
+                splitmix(ctr)
+            })
+            .collect();
+        let mut st = Tape::new(&words, false);
+        for _ in 0..cnt {
+            push_elem(cx, &mut st, &mut e, mode, false);
+        }
+        done += cnt;
+    }
+    e
+}
+
+#[derive(Clone, Copy)]
+struct LenCfg {
+    /// largest k for lengths 2^k + {-1, 0, 1, 2}
+    max_pow: u64,
+    /// largest length of the uniform class
+    max_uniform: u64,
+}
+
+fn gen_len(t: &mut Tape<'_>, l: &LenCfg) -> usize {
+    (match t.weighted(&[2, 2, 2, 4, 3, 6, 3]) {
+        0 => 0,
+        1 => 1,
+        2 => 2,
+        3 => t.range(3, 30),
+        4 => t.range(31, 33),
+        5 => {
+            let k = t.range(5, l.max_pow);
+            (1u64 << k) - 1 + t.below(4)
+        },
+        _ => t.range(34, l.max_uniform.max(34)),
+    }) as usize
+}
+
+// ------------------------------------------------------------------------------------------------
+// relations
+// ------------------------------------------------------------------------------------------------
+
+fn dot<G: VariableBaseMSM>(cx: &Ctx<G>, e: &Elems<G>, n: usize) -> BigUint {
+    let mut acc = BigUint::zero();
+    for i in 0..n {
+        acc += &e.k[i] * &e.a[i];
+    }
+    acc % &cx.r
+}
+
+fn describe<G: VariableBaseMSM>(cx: &Ctx<G>, e: &Elems<G>, upto: usize) -> String {
+    let mut s = String::new();
+    for i in 0..e.len().min(upto) {
+        s.push_str(&format!("({}*[{}]G) ", e.k[i], e.a[i]));
+    }
+    if e.len() > upto {
+        s.push_str(&format!("… {} more", e.len() - upto));
+    }
+    format!("{} r={} | pairs k*[a]G: {}", cx.name, cx.r, s)
+}
+
+struct Shape {
+    last_window: bool,
+    carry_last: bool,
+    repeated: bool,
+    identity: bool,
+    zero_k: bool,
+    one_k: bool,
+    rm1_k: bool,
+}
+
+fn shape<G: VariableBaseMSM>(cx: &Ctx<G>, e: &Elems<G>, n: usize) -> Shape {
+    let c = window(n);
+    let digits = cx.nbits.div_ceil(c);
+    let thr = (c * (digits - 1)) as u64;
+    let mut s = Shape { last_window: false, carry_last: false, repeated: false, identity: false, zero_k: false, one_k: false, rm1_k: false };
+    let rm1 = &cx.r - 1u32;
+    let mut seen = std::collections::BTreeSet::new();
+    for i in 0..n {
+        let k = &e.k[i];
+        s.last_window |= k.bits() > thr;
+        s.carry_last |= digits > 1 && carries_into_last(k, c, cx.nbits);
+        s.identity |= e.a[i].is_zero();
+        s.zero_k |= k.is_zero();
+        s.one_k |= k.is_one();
+        s.rm1_k |= *k == rm1;
+        if !seen.insert(&e.a[i]) {
+            s.repeated = true;
+        }
+    }
+    s
+}
+
+fn check_eq<G: VariableBaseMSM>(got: &G, want: &G, sig: &str, ctx: &dyn Fn() -> String) -> R {
+    ensure!(got == want, sig, "{}: got {} expected {} :: {}", sig, got, want, ctx());
+    Ok(())
+}
+
+fn check_res<G: VariableBaseMSM>(got: &Result<G, usize>, want: &G, lb: usize, ls: usize, sig: &str, ctx: &dyn Fn() -> String) -> R {
+    if lb == ls {
+        match got {
+            Ok(g) => check_eq(g, want, sig, ctx),
+            Err(n) => vh_core::fail(format!("{}.err-on-equal", sig), format!("{} returned Err({}) for equal lengths {} :: {}", sig, n, lb, ctx())),
+        }
+    } else {
+        match got {
+            Err(n) => {
+                ensure!(*n == lb.min(ls), format!("{}.err-len", sig), "{} returned Err({}) for lengths ({}, {}), documented: the shortest length :: {}", sig, n, lb, ls, ctx());
+                Ok(())
+            },
+            Ok(_) => vh_core::fail(format!("{}.ok-on-mismatch", sig), format!("{} returned Ok for lengths ({}, {}) :: {}", sig, lb, ls, ctx())),
+        }
+    }
+}
+
+fn msm_rel<G: VariableBaseMSM>(cx: &Ctx<G>, t: &mut Tape<'_>, o: &mut Obs, lc: &LenCfg, fixed_len: Option<usize>) -> R {
+    let base_len = match fixed_len {
+        // around a fixed boundary n (the msm_chunks step): mostly just above it
+        Some(n) => match t.weighted(&[3, 3, 2, 1]) {
+            0 => n + 1,
+            1 => n + 2,
+            2 => n + 41,
+            _ => n,
+        },
+        None => gen_len(t, lc),
+    };
+    // length pair: equal, bases longer, scalars longer
+    let (lb, ls) = match t.weighted(&[6, 1, 1]) {
+        0 => (base_len, base_len),
+        x => {
+            let d = match t.below(3) {
+                0 => 1,
+                1 => 2,
+                _ => t.range(1, 40) as usize,
+            };
+            if x == 1 {
+                (base_len + d, base_len)
+            } else {
+                (base_len, base_len + d)
+            }
+        },
+    };
+    let mode = t.weighted(&[10, 2, 1, 1]);
+    let n = lb.min(ls);
+    let m = lb.max(ls);
+    let e = gen_elems(cx, t, m, mode);
+    let c = window(n);
+    let sh = shape(cx, &e, n);
+    o.show(|| format!("lens(bases,scalars)=({},{}) c={} mode={} {}", lb, ls, c, mode, describe(cx, &e, 4)));
+    o.nt(n >= 2 && (sh.last_window || sh.repeated));
+    o.class(CNAMES[c.min(19)]);
+    o.class(if n < 32 { "n<32" } else { "n>=32" });
+    o.class_if(n == 0, "n=0");
+    o.class_if(n == 1, "n=1");
+    o.class_if((31..=33).contains(&n), "n=31..33");
+    o.class_if(lb != ls, "len-mismatch");
+    o.class_if(sh.last_window, "scalar-in-last-window");
+    o.class_if(sh.carry_last && cx.neg, "signed-digit-carry-into-last");
+    o.class_if(sh.repeated, "repeated-base");
+    o.class_if(sh.identity, "identity-base");
+    o.class_if(sh.zero_k, "zero-scalar");
+    o.class_if(sh.one_k, "unit-scalar");
+    o.class_if(sh.rm1_k, "scalar=r-1");
+    o.class_if(cx.nbits < c, "window-wider-than-scalar");
+    o.class_if(m > DIRECT, "bulk-expanded");
+
+    let want = (cx.mk_elem)(&dot(cx, &e, n));
+    let scal: Vec<Sc<G>> = e.k.iter().map(big_to_f::<Sc<G>>).collect();
+    let bigs: Vec<Bi<G>> = e.k.iter().map(big_to_bi::<Sc<G>>).collect();
+    let (bases, scal, bigs) = (&e.b[..lb], &scal[..ls], &bigs[..ls]);
+    let ctx = || format!("lens(bases,scalars)=({},{}) c={} {}", lb, ls, c, describe(cx, &e, 8));
+    o.evals(4);
+
+    let got = no_panic("msm", || G::msm(bases, scal))?;
+    check_res(&got, &want, lb, ls, "msm", &ctx)?;
+    let got = no_panic("msm_unchecked", || G::msm_unchecked(bases, scal))?;
+    check_eq(&got, &want, "msm_unchecked", &ctx)?;
+    let got = no_panic("msm_bigint", || G::msm_bigint(bases, bigs))?;
+    check_eq(&got, &want, "msm_bigint", &ctx)?;
+    // streams of equal length (the usable prefix)
+    let (sb, ss) = (&bases[..n], &scal[..n]);
+    let got = no_panic("msm_chunks", || G::msm_chunks(&sb, &ss))?;
+    check_eq(&got, &want, "msm_chunks", &ctx)?;
+    if let Some(f) = cx.cfg_msm {
+        let got = no_panic("config.msm", || f(bases, scal))?;
+        check_res(&got, &want, lb, ls, "config.msm", &ctx)?;
+        o.evals(1);
+    }
+    if n <= 3 {
+        // harness self-check of the discrete-log oracle against the group's own scalar multiplication
+        let mut s = G::zero();
+        for i in 0..n {
+            s += e.b[i] * scal[i];
+        }
+        check_eq(&s, &want, "oracle-vs-scalar-mul", &ctx)?;
+    }
+    Ok(())
+}
+
+fn pick_buf(t: &mut Tape<'_>, m: usize) -> usize {
+    match t.weighted(&[2, 2, 2, 2, 4]) {
+        0 => m + 1,
+        1 => 1,
+        2 => m.max(1),
+        3 => 2,
+        _ => t.range(1, m as u64 + 1) as usize,
+    }
+}
+
+fn hist_rel<G: VariableBaseMSM>(cx: &Ctx<G>, t: &mut Tape<'_>, o: &mut Obs, max_ops: u64) -> R {
+    let l = match t.weighted(&[1, 1, 2, 6, 5, 2]) {
+        0 => 0,
+        1 => 1,
+        2 => 2,
+        3 => t.range(3, 12),
+        4 => t.range(13, 40),
+        _ => t.range(41, max_ops.max(41)),
+    } as usize;
+    let mode = t.weighted(&[10, 2, 1]);
+    // decode the history: Add(fresh base, scalar) | AddSameBase(scalar) | Finalize
+    let mut e: Elems<G> = Elems::new();
+    let mut segs: Vec<Vec<usize>> = vec![vec![]];
+    let mut hist = String::new();
+    for _ in 0..l {
+        match t.weighted(&[6, 3, 1]) {
+            2 => {
+                segs.push(vec![]);
+                hist.push_str("Fin ");
+            },
+            x => {
+                push_elem(cx, t, &mut e, mode, x == 1);
+                let i = e.len() - 1;
+                segs.last_mut().unwrap().push(i);
+                if i < 12 {
+                    hist.push_str(&format!("Add({}*[{}]G) ", e.k[i], e.a[i]));
+                }
+            },
+        }
+    }
+    if segs.len() > 1 && segs.last().unwrap().is_empty() {
+        segs.pop(); // history ended with Finalize
+    }
+    let scal: Vec<Sc<G>> = e.k.iter().map(big_to_f::<Sc<G>>).collect();
+    let bigs: Vec<Bi<G>> = e.k.iter().map(big_to_bi::<Sc<G>>).collect();
+    let mut bufs = vec![];
+    let mut nt = false;
+    for seg in &segs {
+        let m = seg.len();
+        let cb = pick_buf(t, m);
+        let hb = pick_buf(t, m);
+        let with_size = t.bool();
+        bufs.push((cb, hb));
+        let mut cp = if with_size { ChunkedPippenger::<G>::with_size(cb) } else { ChunkedPippenger::<G>::new(cb) };
+        let mut hp = HashMapPippenger::<G>::new(hb);
+        let mut model = BigUint::zero();
+        // model of the buffers (classification only)
+        let mut pending = 0usize;
+        let mut distinct = std::collections::BTreeSet::new();
+        let (mut cflush, mut hflush, mut repeated, mut merged_pending) = (0, 0, false, false);
+        let mut seen = std::collections::BTreeSet::new();
+        let r = no_panic("history", || {
+            for (j, &i) in seg.iter().enumerate() {
+                if j % 2 == 0 {
+                    cp.add(&e.b[i], &bigs[i]);
+                    hp.add(&e.b[i], &scal[i]);
+                } else {
+                    cp.add(e.b[i], bigs[i]);
+                    hp.add(e.b[i], scal[i]);
+                }
+                model += &e.k[i] * &e.a[i];
+                pending += 1;
+                if pending == cb {
+                    cflush += 1;
+                    pending = 0;
+                }
+                if !distinct.insert(e.a[i].clone()) {
+                    merged_pending = true;
+                }
+                if distinct.len() == hb {
+                    hflush += 1;
+                    distinct.clear();
+                }
+                if !seen.insert(e.a[i].clone()) {
+                    repeated = true;
+                }
+            }
+            (cp.finalize(), hp.finalize())
+        })?;
+        let want = (cx.mk_elem)(&(model % &cx.r));
+        let sh_last = {
+            let sub = Elems::<G> { a: seg.iter().map(|&i| e.a[i].clone()).collect(), b: vec![], idx: vec![], k: seg.iter().map(|&i| e.k[i].clone()).collect() };
+            shape(cx, &sub, m).last_window
+        };
+        nt |= m >= 2 && (repeated || cflush > 0 || hflush > 0 || sh_last);
+        o.class_if(cflush > 0, "chunked-flush-before-finalize");
+        o.class_if(cflush > 0 && pending == 0, "chunked-finalize-on-empty-buffer");
+        o.class_if(hflush > 0, "hashmap-flush-before-finalize");
+        o.class_if(merged_pending, "hashmap-merged-equal-bases");
+        o.class_if(m == 0, "finalize-without-add");
+        o.class_if(repeated, "repeated-base");
+        o.evals(2);
+        let ctx = || format!("{} r={} segment of {} adds (chunked buf {}, hashmap buf {}), history: {}", cx.name, cx.r, m, cb, hb, hist);
+        check_eq(&r.0, &want, "chunked.finalize", &ctx)?;
+        check_eq(&r.1, &want, "hashmap.finalize", &ctx)?;
+    }
+    o.class_if(segs.len() > 1, "several-accumulators");
+    o.nt(nt);
+    o.show(|| format!("{} r={} ops={} segments={} bufs(chunked,hashmap)={:?} :: {}", cx.name, cx.r, l, segs.len(), &bufs[..bufs.len().min(4)], hist));
+    Ok(())
+}
+
+/// exhaustive: every (a_1, k_1, …, a_n, k_n) in [0, r)^{2n} for a tiny group; exact-mode tape
+fn exh_rel<G: VariableBaseMSM>(cx: &Ctx<G>, t: &mut Tape<'_>, o: &mut Obs, n: usize) -> R {
+    let r = cx.r.to_u64_digits()[0];
+    let mut e: Elems<G> = Elems::new();
+    for _ in 0..n {
+        let a = BigUint::from(t.below(r));
+        let k = BigUint::from(t.below(r));
+        let (b, i) = match &cx.bases {
+            Bases::Any(f) => (f(&a), 0),
+            Bases::Pool { pts, .. } => {
+                let i = a.to_u64_digits().first().copied().unwrap_or(0) as usize;
+                (pts[i].1, i)
+            },
+        };
+        e.a.push(a);
+        e.b.push(b);
+        e.idx.push(i);
+        e.k.push(k);
+    }
+    let sh = shape(cx, &e, n);
+    o.nt(n >= 2 && (sh.last_window || sh.repeated));
+    o.show(|| describe(cx, &e, 8));
+    let want = (cx.mk_elem)(&dot(cx, &e, n));
+    let scal: Vec<Sc<G>> = e.k.iter().map(big_to_f::<Sc<G>>).collect();
+    let bigs: Vec<Bi<G>> = e.k.iter().map(big_to_bi::<Sc<G>>).collect();
+    let ctx = || describe(cx, &e, 8);
+    o.evals(1);
+    check_eq(&G::msm_bigint(&e.b, &bigs), &want, "msm_bigint", &ctx)?;
+    check_res(&G::msm(&e.b, &scal), &want, n, n, "msm", &ctx)
+}
+
+fn exh_tapes(r: u64, n: usize) -> Box<dyn Iterator<Item = Vec<u64>>> {
+    let total = r.pow(2 * n as u32);
+    Box::new((0..total).map(move |mut x| {
+        let mut v = Vec::with_capacity(2 * n);
+        for _ in 0..2 * n {
+            v.push(x % r);
+            x /= r;
+        }
+        v
+    }))
+}
+
+struct Budget {
+    msm: u32,
+    hist: u32,
+    len: LenCfg,
+    max_ops: u64,
+}
+
+fn add_group<G: VariableBaseMSM>(out: &mut Vec<Rel>, cx: Ctx<G>, b: Budget) -> Arc<Ctx<G>> {
+    let cx = Arc::new(cx);
+    let w = words_per_elem(cx.fctx.n);
+    let (c1, lc) = (cx.clone(), b.len);
+    out.push(Rel::new(format!("msm/{}", cx.name), b.msm, DIRECT * w + 64, move |t, o| msm_rel(&c1, t, o, &lc, None)).shrink_iters(600));
+    let (c2, mo) = (cx.clone(), b.max_ops);
+    out.push(Rel::new(format!("history/{}", cx.name), b.hist, (b.max_ops as usize) * (w + 1) + 4 * 40 + 16, move |t, o| hist_rel(&c2, t, o, mo)).shrink_iters(600));
+    cx
+}
+
+fn relations(tier: Tier) -> Vec<Rel> {
+    let mut out = Vec::new();
+    let q = |a: u32, b: u32| tier.pick(a, b);
+
+    // (i) harness groups Zr: plain-bucket (NEG = false) and signed-digit (NEG = true) implementations
+    macro_rules! zr {
+        ($f:ty, $name:expr, $msm:expr, $exh:expr, $step:expr) => {{
+            let len = LenCfg { max_pow: tier.pick(12, 17), max_uniform: tier.pick(2600, 6000) };
+            let b = || Budget { msm: q($msm, $msm * 10), hist: q(600, 6000), len, max_ops: tier.pick(120, 400) };
+            let p = add_group(&mut out, zr_ctx::<$f, false>($name), b());
+            let s = add_group(&mut out, zr_ctx::<$f, true>($name), b());
+            if $exh > 0 {
+                let r = p.r.to_u64_digits()[0];
+                let n: usize = $exh;
+                let (p2, s2) = (p.clone(), s.clone());
+                out.push(Rel::new(format!("exhaustive-n{}/{}", n, p.name), 0, 2 * n, move |t, o| exh_rel(&p2, t, o, n)).exhaustive(move || exh_tapes(r, n)));
+                out.push(Rel::new(format!("exhaustive-n{}/{}", n, s.name), 0, 2 * n, move |t, o| exh_rel(&s2, t, o, n)).exhaustive(move || exh_tapes(r, n)));
+            }
+            if $step {
+                // crosses the hard-coded 2^20 step of msm_chunks
+                let (p2, s2) = (p.clone(), s.clone());
+                let cases = q(4, 16);
+                out.push(Rel::new(format!("chunks-step/{}", p.name), cases, 64, move |t, o| msm_rel(&p2, t, o, &len, Some(1 << 20))).shrink_iters(8));
+                out.push(Rel::new(format!("chunks-step/{}", s.name), cases, 64, move |t, o| msm_rel(&s2, t, o, &len, Some(1 << 20))).shrink_iters(8));
+            }
+        }};
+    }
+    zr!(zoo::P64, "P64", 2000, 0, true); // 1 limb, 64-bit modulus, no spare bit
+    zr!(zoo::P128, "P128", 1500, 0, false); // 2 limbs, no spare bit
+    zr!(zoo::Bls381Fr, "Bls381Fr", 1500, 0, false); // 4 limbs, 255 bits
+    zr!(zoo::T251, "T251", 2000, 0, false); // 8 bits
+    zr!(zoo::T3, "T3", 1000, tier.pick(4, 5), false); // 2 bits: the window is always wider than the scalar
+
+    // (ii) toy curves (bases: the whole prime-order subgroup, table from the affine oracle law)
+    let toy_b = |big: bool| Budget {
+        msm: q(1000, 15000),
+        hist: q(400, 6000),
+        len: LenCfg { max_pow: tier.pick(if big { 8 } else { 9 }, 12), max_uniform: tier.pick(400, 1500) },
+        max_ops: tier.pick(80, 300),
+    };
+    add_group(&mut out, toy_sw_ctx::<toy::SwA0P1>("SwA0P1"), toy_b(false));
+    add_group(&mut out, toy_sw_ctx::<toy::SwAxH4>("SwAxH4"), toy_b(false));
+    add_group(&mut out, toy_sw_ctx::<toy::SwBigAx>("SwBigAx"), toy_b(true));
+    let tec1 = add_group(&mut out, toy_te_ctx::<toy::TeC1>("TeC1"), toy_b(false));
+    add_group(&mut out, toy_te_ctx::<toy::TeN>("TeN"), toy_b(false));
+    add_group(&mut out, toy_te_ctx::<toy::TeBig>("TeBig"), toy_b(true));
+    {
+        let c = tec1.clone();
+        out.push(Rel::new(format!("exhaustive-n2/{}", c.name), 0, 4, move |t, o| exh_rel(&c, t, o, 2)).exhaustive(move || exh_tapes(13, 2)));
+    }
+
+    // (iii) shipped curves
+    let ship_b = || Budget {
+        msm: q(300, 4000),
+        hist: q(150, 2000),
+        len: LenCfg { max_pow: tier.pick(8, 11), max_uniform: tier.pick(140, 1200) },
+        max_ops: tier.pick(60, 200),
+    };
+    add_group(
+        &mut out,
+        shipped_ctx::<ark_bls12_381::G1Projective>("bls12_381.G1", 20, <ark_bls12_381::g1::Config as SWCurveConfig>::msm),
+        ship_b(),
+    );
+    add_group(
+        &mut out,
+        shipped_ctx::<ark_ed_on_bls12_381::EdwardsProjective>("ed_on_bls12_381", 20, <ark_ed_on_bls12_381::EdwardsConfig as TECurveConfig>::msm),
+        ship_b(),
+    );
+    add_group(
+        &mut out,
+        shipped_ctx::<ark_secp256k1::Projective>("secp256k1", 20, <ark_secp256k1::Config as SWCurveConfig>::msm),
+        ship_b(),
+    );
+    out
+}
+
 fn main() {
-    eprintln!("C05: check not implemented");
-    std::process::exit(2);
+    vh_core::engine::main(PropSpec {
+        id: "C05",
+        rule: "An instance is a length pair (|bases|, |scalars|) (0, 1, 2, 3..30, 31..33, 2^k-1..2^k+2 for every k up to the tier bound – this brackets every change of the window size c = ln_without_floats(n)+2 – and uniform; equal, or one side longer by 1, 2 or up to 40) and a vector of (base, scalar) pairs decoded from a proptest tape (up to 24 pairs word by word, longer vectors by deterministic block expansion of one tape word). Bases are known multiples a*Gen (fresh edge value / pool point, repeat of an earlier base, negation of the previous base, identity); scalars are edge values of the scalar field (0, 1, 2, r-1, near r, 2^k±1, edge limbs, uniform), r-1-x at every scale (saturates the top windows), small, repeat or negation of the previous scalar; modes: all scalars near r, a single repeated base, all scalars in {0,1,2}. Groups: the harness group Zr = (F,+) with NEGATION_IS_CHEAP = false (plain-bucket implementation) and = true (signed-digit) over a 64-bit no-spare-bit field, a 2-limb, a 4-limb, an 8-bit and a 2-bit field; toy SW/TE curves; BLS12-381 G1, ed_on_bls12_381, secp256k1. Every entry point (msm, msm_unchecked, msm_bigint, msm_chunks, SWCurveConfig/TECurveConfig::msm) must return (Σ k_i a_i mod r)*Gen, Err(min) for unequal lengths on checked entry points. Histories: a sequence of Add(base, scalar) | AddSameBase(scalar) | Finalize decoded from the tape is run through ChunkedPippenger and HashMapPippenger with buffer sizes in 1..=adds+1 (a new accumulator after each Finalize); finalize must equal the model sum. A case is non-trivial when the usable length is >= 2 and some scalar has a bit in the last window (k >= 2^(c*(digits-1))) or a base is repeated, or (histories) a flush happens before finalize; distinct = distinct decoded choice sequences.",
+        assumptions: &[
+            "num-bigint arithmetic is correct (dot product mod r)",
+            "the harness group Zr uses arkworks prime-field addition (C01's subject) as its group law",
+            "toy-curve tables come from the textbook affine law of vh_core::curve; shipped-curve reference multiples use arkworks' projective add/double (C03's subject) in a naive double-and-add",
+            "bases are members of the prime-order subgroup (AffineRepr contract); msm_bigint is called with integers below r (what every caller in the library passes); msm_chunks is called with streams of equal length",
+        ],
+        relations,
+    })
 }
